@@ -13,7 +13,7 @@
    op = [k, ts, n, x]:  k = "noop"                                        a step without effect
                         k = "add",  ts = types, n = name, x = "res" | "res2" | "fac" | "afac"   publish a resource (res2: right
                                     after an unrelated publication, no checkpoint in between) / a (async) factory
-                        k = "get",  ts = <<type>>, n = name, x = "wait" | "opt" | "nowait"
+                        k = "get",  ts = <<type>>, n = name, x = "wait" | "giveup" (waits, but may give up: GiveUp) | "opt" | "nowait"
                         k = "svc"                                         start a service task (stopped when the surrounding context is left)
    A resource added under the name "default" during start() appears under the component's default resource name (drn).        *)
 EXTENDS Naturals, Sequences, FiniteSets, TLC, SequencesExt
@@ -170,6 +170,14 @@ Step(c) ==
          failing == prog.fail.c = c /\ prog.fail.phase = PhaseName(rt.pc[c]) /\ rt.ip[c] = Len(Script(c, rt.pc[c])) IN
      rt' = IF failing THEN FailAt(r0, c) ELSE Quiet(Settle(DoOp(r0, c)))
   /\ hist' = Append(hist, c) /\ Feed(rt')
+\* a component that wrapped its lookup in a timeout of its own gives up waiting (x = "giveup") and carries on
+GiveUp(c) ==
+  /\ stage = "run" /\ rt.sc = "run" /\ c \in 1..prog.n /\ rt.wait[c] # NoW /\ UNCHANGED <<prog, stage>>
+  /\ InMethod(rt, c) /\ Script(c, rt.pc[c])[rt.ip[c]].x = "giveup"
+  /\ LET w == rt.wait[c]
+         r0 == Emit([rt EXCEPT !.evs = <<>>, !.wait[c] = NoW, !.ip[c] = @ + 1], [ev |-> "get.end", c |-> c, t |-> w.t, n |-> w.n, r |-> "gaveup", v |-> <<>>]) IN
+     rt' = Quiet(Settle(r0))
+  /\ hist' = Append(hist, 100 + c) /\ Feed(rt')
 \* virtual time passes the timeout while the start-up is incomplete (a tie with completion is excluded: either outcome is legal)
 Timeout ==
   /\ stage = "run" /\ rt.sc = "run" /\ prog.timeout /\ rt.clock = "before" /\ UNCHANGED <<prog, stage>>
@@ -188,7 +196,7 @@ ExitCtx ==
      rt' = Emit(Td(r0, Len(rt.regs)), [ev |-> "ctx.exit.end"])
   /\ prog' = [prog EXCEPT !.acyclic = ~Stuck]
   /\ stage' = "done" /\ Feed(rt') /\ UNCHANGED hist
-Next == AddComp \/ StartRun \/ (\E c \in Comps : Step(c)) \/ Timeout \/ ExitCtx
+Next == AddComp \/ StartRun \/ (\E c \in Comps : Step(c) \/ GiveUp(c)) \/ Timeout \/ ExitCtx
 \* every run of the environment ends: under weak fairness of the environment's steps start_component finishes or is (legally) stuck,
 \* and the surrounding context is left
 Spec == Init /\ [][Next]_vars /\ WF_vars(Next)
